@@ -467,8 +467,8 @@ Definition open_repair_index (index : file) (data : list (N * file)) (m : option
   let t2 := if overflow =? 0 then t1 else w_index t1 (f_trunc (t_index t1) (size0 - overflow)) in
   repair_index t2.
 
-Definition open_table (index : file) (data : list (N * file)) (m : option meta) : res table :=
-  let t3 := open_repair_index index data m in
+(* second part: tail marker, virtual tail, last index entry, head file (repair(), lines 256-296) *)
+Definition open_head (t3 : table) : res (table * entry * N * N) :=
   let offsets := fsize (t_index t3) in
   if offsets <? 6 then Err E_MODEL else
   let buf0 := read_over (repeat 0 6) (fbytes (t_index t3)) 0 in
@@ -480,8 +480,11 @@ Definition open_table (index : file) (data : list (N * file)) (m : option meta) 
               else buf_entry (read_over buf0 (fbytes (t_index t6)) (offsets - 6)));
   let t7 := open_append t6 (efile last) in
   do csize <- match dget (efile last) (t_data t7) with Some f => Ok (fsize f) | None => Err E_MODEL end;
-  do r <- repair_loop (S (N.to_nat (offsets / 6))) t7 last offsets csize;
-  let '(t8, last', offsets', csize') := r in
+  Ok (t7, last, offsets, csize).
+
+(* last part: syncs, counters, the clamp of the virtual tail, leftover files, preopen, and newTable's
+   size computation (repair(), lines 360-394; newTable, lines 202-207) *)
+Definition open_finish (t8 : table) (last' : entry) (offsets' csize' : N) : res table :=
   (* index.Sync, head.Sync, metadata.file.Sync *)
   let t9 := sync_index t8 in
   do t10 <- data_upd t9 (efile last') f_sync;
@@ -500,6 +503,13 @@ Definition open_table (index : file) (data : list (N * file)) (m : option meta) 
   else
     let from := t_hidden t15 - 1 - t_offset t15 in
     if fsize (t_index t15) <? from * 6 + 12 then Err E_IO else Ok t15.
+
+Definition open_table (index : file) (data : list (N * file)) (m : option meta) : res table :=
+  do r <- open_head (open_repair_index index data m);
+  let '(t7, last, offsets, csize) := r in
+  do r2 <- repair_loop (S (N.to_nat (offsets / 6))) t7 last offsets csize;
+  let '(t8, last', offsets', csize') := r2 in
+  open_finish t8 last' offsets' csize'.
 
 (* ---------- crash (DESIGN.md section 4) ---------- *)
 (* a file keeps [c] bytes (durable <= c <= length) followed by [p] zero bytes (c + p <= length) *)
